@@ -626,7 +626,9 @@ func prepareFile(text string, withImport bool, spare int) (*bebop.File, []byte, 
 	main := text
 	if withImport {
 		// two imported files with different go_package values, both used by this file
-		main = "import \"impx.bop\"\nimport \"impy.bop\"\n" + text + "\nstruct UsesImp { ImpPoint p; ImpColor c; ImpyBox b; ImpySize s; }\nmessage UsesImpMsg { 1 -> ImpyTag t; 2 -> ImpNote n; }\n"
+		// (the users of the imports come first: a text may end in a [flags] enum, after which
+		// the parser accepts nothing but enums)
+		main = "import \"impx.bop\"\nimport \"impy.bop\"\nstruct UsesImp { ImpPoint p; ImpColor c; ImpyBox b; ImpySize s; }\nmessage UsesImpMsg { 1 -> ImpyTag t; 2 -> ImpNote n; }\n" + text + "\n"
 	}
 	f, _, err := bebop.ReadFile(bytes.NewReader([]byte(main)))
 	if err != nil {
@@ -692,6 +694,9 @@ func runC14(c *Ctx) *Replay {
 	}
 	if withImport && r.Chance(1, 2) {
 		sc.Extra["impform"] = fmt.Sprint(1 + r.Intn(len(importUses)))
+	}
+	if r.Chance(1, 3) {
+		sc.Extra["attrs"] = "1"
 	}
 	if r.Chance(1, 5) {
 		sc.Extra["awkward"] = fmt.Sprint(1 + r.Intn(len(awkwardNames)))
@@ -898,6 +903,13 @@ func execConcurrent(n *Node, sc *Scenario) *Violation {
 		// method names, Go keywords and predeclared names, the identifiers of its templates)
 		cp := *prog
 		cp.Bop = prog.Bop + "\n" + awkwardNames[k-1]
+		prog = &cp
+	}
+	if sc.Extra["attrs"] == "1" {
+		// top-level attributes of BOTH kinds in one text: [opcode(...)] in front of records at
+		// the start, a [flags] enum at the very end (the parser never leaves flags mode)
+		cp := *prog
+		cp.Bop = "[opcode(\"AwK1\")]\nstruct AwkAttrA { int32 a; }\n[opcode(0x41774b32)]\nmessage AwkAttrB { 1 -> int32 a; }\n" + prog.Bop + "\n[flags]\nenum AwkAttrF { One = 1; Two = 2; Four = 4; }\n"
 		prog = &cp
 	}
 	// prelude: the complementary call (every option flipped) of each task, so that the
